@@ -108,6 +108,20 @@ func c16RandCase(r *rand.Rand) c16Case {
 		return m
 	}
 	expr := func() string {
+		// joins against a side that always returns: the selector providing the labels is still checked, the ones
+		// covered by an `or vector(n)` fallback are not
+		switch r.Intn(12) {
+		case 7:
+			return sel() + " * on() group_left() vector(100)"
+		case 8:
+			return sel() + " / on() group_left() (" + sel() + " or vector(1))"
+		case 9:
+			return "sum(" + sel() + ") / on() sum(" + sel() + " or vector(1))"
+		case 10:
+			return sel() + " or vector(0)"
+		case 11:
+			return sel() + " > on() group_left() (sum(" + sel() + ") or vector(0))"
+		}
 		switch r.Intn(7) {
 		case 0:
 			return "sum(" + sel() + ") by (job) > 0"
@@ -194,6 +208,40 @@ func c16Selectors(expr string) []*promParser.VectorSelector {
 	return out
 }
 
+// c16FallbackCovered: start offsets of the selectors that sit on the left of an `or` whose right side is vector(n).
+func c16FallbackCovered(expr string) map[int]bool {
+	out := map[int]bool{}
+	node, err := promParser.ParseExpr(expr)
+	if err != nil {
+		return out
+	}
+	promParser.Inspect(node, func(n promParser.Node, _ []promParser.Node) error {
+		b, ok := n.(*promParser.BinaryExpr)
+		if !ok || b.Op != promParser.LOR {
+			return nil
+		}
+		rhs := b.RHS
+		for {
+			p, ok := rhs.(*promParser.ParenExpr)
+			if !ok {
+				break
+			}
+			rhs = p.Expr
+		}
+		if c, ok := rhs.(*promParser.Call); !ok || c.Func.Name != "vector" {
+			return nil
+		}
+		promParser.Inspect(b.LHS, func(m promParser.Node, _ []promParser.Node) error {
+			if vs, ok := m.(*promParser.VectorSelector); ok {
+				out[int(vs.PosRange.Start)] = true
+			}
+			return nil
+		})
+		return nil
+	})
+	return out
+}
+
 func selMetric(vs *promParser.VectorSelector) string {
 	if vs.Name != "" {
 		return vs.Name
@@ -207,11 +255,12 @@ func selMetric(vs *promParser.VectorSelector) string {
 }
 
 type c16Outcome struct {
-	viol       []core.Violation
-	inconc     string
-	nontrivial []string
-	problems   int
-	selectors  int
+	viol            []core.Violation
+	inconc          string
+	nontrivial      []string
+	problems        int
+	selectors       int
+	fallbackCovered int
 }
 
 func c16Check(c *core.Ctx, cs c16Case) (out c16Outcome) {
@@ -272,6 +321,7 @@ func c16Check(c *core.Ctx, cs c16Case) (out c16Outcome) {
 			}
 			return false, ""
 		}
+		fallback := c16FallbackCovered(ru.Expr)
 		seen := map[string]bool{}
 		for _, vs := range sels {
 			m := selMetric(vs)
@@ -321,6 +371,11 @@ func c16Check(c *core.Ctx, cs c16Case) (out c16Outcome) {
 						exempt = true
 					}
 				}
+				if fallback[int(vs.PosRange.Start)] {
+					// documented: a query with an `or vector(n)` fallback is not reported for the metrics it covers
+					out.fallbackCovered++
+					exempt = true
+				}
 				if exempt {
 					continue
 				}
@@ -367,6 +422,7 @@ func runC16(c *core.Ctx) int {
 		}
 		run.Count("series_problems_seen", int64(o.problems))
 		run.Count("selectors_judged", int64(o.selectors))
+		run.Count("selectors_covered_by_or_vector_fallback", int64(o.fallbackCovered))
 		for _, v := range o.viol {
 			run.Violate(v)
 		}
